@@ -779,14 +779,14 @@ theorem bounded_rsigRows : ∀ rings, Bounded 0 4 (rsigRows rings)
       fun s => bounded_bind (bounded_rsigRows t) fun ss => bounded_mono (bounded_pure _) (Nat.zero_le _) (Nat.zero_le _)
 
 /-- ring sizes of the key inputs (one signature row each) -/
-def ringsOf (p : Prefix) : List Nat := p.ins.filterMap fun i => match i with | .toKey _ o _ => some o.length | _ => none
+def ledgerRings (p : Prefix) : List Nat := p.ins.filterMap fun i => match i with | .toKey _ o _ => some o.length | _ => none
 
 /-- instrumented `Transaction::consensus_decode`. The prefix stays alive throughout. Version 1: the rows vector
 (`Vec<Vec<Signature>>`, push-grown, one 24-byte header per key input) is charged in full, `GROW·24` per row, before the
 first row is read — an over-approximation at every instant. -/
 def rtx : RDec Tx := rbind rprefix fun p =>
   if p.version = 1 then
-    ralloc ((ringsOf p).length * (GROW * szVec)) (rbind (rsigRows (ringsOf p)) fun s => rpure ⟨p, s, none, none⟩)
+    ralloc ((ledgerRings p).length * (GROW * szVec)) (rbind (rsigRows (ledgerRings p)) fun s => rpure ⟨p, s, none, none⟩)
   else if p.ins.length = 0 then rpure ⟨p, [], none, none⟩
   else rbind (rbase p.ins.length p.outs.length) fun b =>
     if b.ty ≠ 0 then
